@@ -8,6 +8,7 @@ import (
 	"sort"
 	"strings"
 	"sync"
+	"sync/atomic"
 	"time"
 
 	"golang.org/x/tools/go/ssa"
@@ -60,11 +61,12 @@ type Explorer struct {
 	prog *ssa.Program
 	seed int64
 
-	mu     sync.Mutex
-	cond   *sync.Cond
-	queue  [][]int32
-	active int
-	abort  string
+	mu        sync.Mutex
+	cond      *sync.Cond
+	queue     [][]int32
+	active    int
+	abort     string
+	gcPending bool
 
 	paths        int
 	ends         map[string]int
@@ -105,6 +107,20 @@ func (e *Explorer) pop() ([]int32, bool) {
 	for {
 		if e.abort != "" {
 			return nil, false
+		}
+		// term-table barrier: emptied only while no path is running
+		if e.gcPending {
+			if e.active == 0 {
+				clearTermTable()
+				e.gcPending = false
+				e.cond.Broadcast()
+			} else {
+				e.cond.Wait()
+				continue
+			}
+		} else if atomic.LoadInt64(&termCount) > termTableLimit {
+			e.gcPending = true
+			continue
 		}
 		if e.run.MaxPaths > 0 && e.paths >= e.run.MaxPaths {
 			e.abort = fmt.Sprintf("path limit %d reached", e.run.MaxPaths)
@@ -393,6 +409,35 @@ func (m *Machine) feasible(c *Term) bool {
 	return r == "sat"
 }
 
+// known: is c decided by a literal already on the path condition? (The same symbolic data is
+// often re-examined, e.g. decoded twice; hash-consing makes the conditions identical terms.)
+func (m *Machine) known(c *Term) (val, ok bool) {
+	if m.pcLit == nil {
+		return false, false
+	}
+	if v, ok := m.pcLit[c]; ok {
+		return v, true
+	}
+	if c.op == "not" {
+		if v, ok := m.pcLit[c.args[0]]; ok {
+			return !v, true
+		}
+	}
+	return false, false
+}
+
+func (m *Machine) addPC(c *Term) {
+	m.pc = append(m.pc, c)
+	if m.pcLit == nil {
+		m.pcLit = map[*Term]bool{}
+	}
+	if c.op == "not" {
+		m.pcLit[c.args[0]] = false
+	} else {
+		m.pcLit[c] = true
+	}
+}
+
 // branch decides a symbolic condition; returns the side taken.
 func (m *Machine) branch(c *Term) bool {
 	if c.isTrue() {
@@ -401,15 +446,18 @@ func (m *Machine) branch(c *Term) bool {
 	if c.isFalse() {
 		return false
 	}
+	if v, ok := m.known(c); ok {
+		return v
+	}
 	if m.decPos < len(m.prefix) {
 		d := m.prefix[m.decPos]
 		m.decPos++
 		m.taken = append(m.taken, d)
 		if d == 0 {
-			m.pc = append(m.pc, c)
+			m.addPC(c)
 			return true
 		}
-		m.pc = append(m.pc, tNot(c))
+		m.addPC(tNot(c))
 		return false
 	}
 	m.decPos++
@@ -422,15 +470,15 @@ func (m *Machine) branch(c *Term) bool {
 	case ft && ff:
 		m.pushAlt(1)
 		m.taken = append(m.taken, 0)
-		m.pc = append(m.pc, c)
+		m.addPC(c)
 		return true
 	case ft:
 		m.taken = append(m.taken, 0)
-		m.pc = append(m.pc, c)
+		m.addPC(c)
 		return true
 	default:
 		m.taken = append(m.taken, 1)
-		m.pc = append(m.pc, tNot(c))
+		m.addPC(tNot(c))
 		return false
 	}
 }
